@@ -3,12 +3,14 @@ use std::path::Path;
 
 pub mod c09;
 pub mod c12;
+pub mod c16;
 pub mod c21;
 pub mod c26;
 
 pub fn for_property(p: &str) -> Vec<Suite> {
     match p {
         "C09" => c09::suites(),
+        "C16" => c16::suites(),
         "C21" => c21::suites(),
         "C26" => c26::suites(),
         "C12" => c12::suites_c12(),
@@ -22,6 +24,7 @@ pub fn for_property(p: &str) -> Vec<Suite> {
 /// Regenerate `Generated/*.lean` from the running implementation (only rewritten when changed).
 pub fn extract_all(dir: &Path) {
     c09::extract(dir);
+    c16::extract(dir);
 }
 
 #[allow(dead_code)]
